@@ -14,6 +14,8 @@
 #      along with this program.  If not, see <https://www.gnu.org/licenses/>.
 
 """Handling for action callbacks."""
+import dis
+import sys
 from types import FrameType
 from typing import List, Optional
 
@@ -22,6 +24,50 @@ from deep.api.tracepoint.trigger import Location
 
 from deep.processor.context.action_results import ActionCallback
 from deep.processor.context.trigger_context import TriggerContext
+
+
+# what a function that really returns (or yields) has executed last
+_RETURNING = ('RETURN_VALUE', 'RETURN_CONST', 'YIELD_VALUE', 'YIELD_FROM')
+
+
+def _is_unwinding(frame: FrameType) -> bool:
+    """
+    Tell if a 'return' event ends the function because an exception is leaving it.
+
+    :param frame: the frame of the 'return' event
+    :return: True, if the function does not return (or yield) a value.
+    """
+    try:
+        return dis.opname[frame.f_code.co_code[frame.f_lasti]] not in _RETURNING
+    except Exception:
+        return False
+
+
+try:
+    # python 3.11+: which instructions are covered by a handler (except, finally, with) is a table of the code object
+    from dis import _parse_exception_table
+except ImportError:
+    _parse_exception_table = None
+
+
+def _can_handle(frame: FrameType) -> bool:
+    """
+    Tell if the function has a handler for an exception raised where it stands.
+
+    :param frame: the frame of an 'exception' event
+    :return: True, if the exception is caught (for good or not) in the function; False if it leaves the function, or
+             if we cannot tell.
+    """
+    if _parse_exception_table is None:
+        return False
+    try:
+        at = frame.f_lasti
+        for entry in _parse_exception_table(frame.f_code):
+            if entry.start <= at < entry.end:
+                return True
+    except Exception:
+        pass
+    return False
 
 
 class CallbackContext(Location, ActionCallback):
@@ -42,6 +88,11 @@ class CallbackContext(Location, ActionCallback):
         self.__line = line
         self.__callbacks = callbacks
         self.__frame = frame
+        # the exception on its way through our function, if any: python reports the end of a function that an exception
+        # leaves as a 'return' without a value, so we have to remember what was raised. (On a line in a 'finally' we
+        # start with the exception that is already in flight.)
+        in_flight = sys.exc_info()
+        self.__raised = in_flight if in_flight[1] is not None and event == 'line' else None
 
     def at_location(self, event: str, file: str, line: int, function_name: str, frame: FrameType) -> bool:
         """
@@ -67,7 +118,18 @@ class CallbackContext(Location, ActionCallback):
         if self.__event == 'line':
             return self.__check_at_next_line(event, file, function_name)
         else:
-            return self.__check_at_method_end(event)
+            return self.__check_at_method_end(event, frame)
+
+    def note(self, event: str, frame: FrameType, arg: any):
+        """
+        Take note of an event seen while this context is pending.
+
+        :param event: the event
+        :param frame: the frame of the event
+        :param arg: the arg from settrace
+        """
+        if event == 'exception' and (self.__frame is None or frame is self.__frame):
+            self.__raised = arg
 
     def __called_from_registering_frame(self, frame: FrameType) -> bool:
         caller = frame.f_back
@@ -87,6 +149,9 @@ class CallbackContext(Location, ActionCallback):
         :param arg: the arg from settrace
         :return: True, to keep this callback until next match.
         """
+        if event == 'return' and _is_unwinding(frame):
+            # the function does not return: an exception is leaving it
+            event, arg = 'exception', self.__raised
         for callback in self.__callbacks:
             try:
                 callback.process(ctx, event, frame, arg)
@@ -139,18 +204,21 @@ class CallbackContext(Location, ActionCallback):
         # If we are not line, then we have to be the return or error from the method we started in
         return True
 
-    def __check_at_method_end(self, event: str) -> bool:
+    def __check_at_method_end(self, event: str, frame: FrameType) -> bool:
         """
         Check if the new position is the end of the method we are wrapping.
 
         When a 'call' event triggers a callback, then we are trying to wrap a method execution. This means we should
-        trigger the callback when the method ends. this is when the event 'exception' or 'return' is seen with the
-        same file and function name.
+        trigger the callback when the method ends. This is when the event 'return' is seen with the same file and
+        function name (python sends it when the function returns and when an exception leaves it), or the event
+        'exception' for an exception the function has no handler for. An exception that is caught in the function is
+        not the end: the function can handle it and carry on.
 
         :param event: the current event
+        :param frame: the frame of the event
         :return: True, if we are the next logical line of code.
 
         """
-        if event in ['exception', 'return']:
-            return True
-        return False
+        if event == 'exception':
+            return not _can_handle(frame)
+        return event == 'return'
